@@ -13,10 +13,29 @@ ALPHABETS = {
     'underscore': ('_', 'a', '_a'),
     'prefixed': ('a', 'ns:a', 'xmlns:a', 'text'),
 }
+def class_names(maxlen):
+    """every name of <= maxlen characters over one representative per character class (lower, upper, digit, '_', '-', '.', ':', non-ASCII lower, non-ASCII upper)
+    that satisfies the property's precondition (XML name start, a letter before any digit)"""
+    import itertools
+    reps = ['a', 'B', '1', '_', '-', '.', ':', '\u00e9', '\u0418']
+    out = []
+    for L in range(1, maxlen + 1):
+        for cs in itertools.product(reps, repeat=L):
+            s = ''.join(cs)
+            if s[0] in '1-.:' or s.endswith(':') or s.count(':') > 1: continue          # not an XML name / QName
+            seen_letter = False; ok = True
+            for ch in s:
+                if ch.isalpha(): seen_letter = True
+                elif ch.isdigit() and not seen_letter: ok = False
+            if ok: out.append(s)
+    return tuple(out)
+
 def configs(tier):
     q = []
     for an, names in ALPHABETS.items():
         q.append(('%s / two parents' % an, dict(fam_kw=dict(shape='two_parents', names=names))))
+    q.append(('every element name of <= 2 characters over 9 character classes / single element', dict(fam_kw=dict(shape='single', names=class_names(2)))))
+    q.append(('every attribute name of <= 2 characters over 9 character classes / single attribute', dict(fam_kw=dict(shape='single_attr', names=('e',), anames=class_names(2)))))
     q.append(('same name under interleaved parents / three branches', dict(fam_kw=dict(shape='three_branches', names=('x', 'y', 'item')))))
     q.append(('same name at many depths / deep', dict(fam_kw=dict(shape='deep', names=('a', 'b', 'r')))))
     q.append(('attributes vs children vs text / attrs', dict(fam_kw=dict(shape='attrs', names=('text', 'a', 'type', 'text_attr')))))
@@ -25,6 +44,8 @@ def configs(tier):
     for an, names in ALPHABETS.items():
         t.append(('%s / deep' % an, dict(fam_kw=dict(shape='deep', names=names))))
         t.append(('%s / wide, 2 documents' % an, dict(fam_kw=dict(shape='wide', names=names, docs=2))))
+    t.append(('every element name of <= 3 characters over 9 character classes / single element', dict(fam_kw=dict(shape='single', names=class_names(3)))))
+    t.append(('every attribute name of <= 3 characters over 9 character classes / single attribute', dict(fam_kw=dict(shape='single_attr', names=('e',), anames=class_names(3)))))
     t.append(('serde_xml_rs preset: attributes vs children / attrs', dict(fam_kw=dict(shape='attrs', names=('text', 'a', 'type', 'a_attr')), presets=('serde_xml_rs',))))
     return t
 
